@@ -13,7 +13,8 @@ def run_simple(prop, spec, tier, known_ids, t0, args):
         plist = [None]
     jobs, meta = [], []
     for c in cfgs:
-        for k in (spec.get('parts_by_config', {}).get(c, plist) if parts else plist):
+        pbc = dict(spec.get('parts_by_config', {})); pbc.update(spec.get('parts_by_config_quick', {}) if tier == 'quick' else {})
+        for k in (pbc.get(c, plist) if parts else plist):
             fl = tuple(spec.get('flags', [])) + ((f'-DGLMX_PART={k}',) if k is not None else ())
             tag = os.path.splitext(os.path.basename(spec['src']))[0] + (f'p{k}' if k is not None else '')
             jobs.append((spec['src'], c, fl, tag, (), tuple(spec.get('libs', []))))
@@ -374,7 +375,7 @@ PROPS = {
    technique='exhaustive enumeration of all 2^24 8-bit RGB triples (and 16-bit lattices) through the integer YCoCg-R pair on every carrier type, of consecutive-float pairs on dense grids (all floats of [0,1] in the thorough tier) through the sRGB pair for five gammas, and of the 8-bit RGB cube / hue grids through HSV',
    text='rgb2YCoCgR/YCoCgR2rgb exactly lossless on all 2^24 triples for u8,i16,u16,i32,u32,i64 carriers; sRGB pair: range, fixes 0 and 1, monotone between adjacent grid points, mutual inverse within the bound derived from the curve constants, alpha bits untouched; HSV: hue in [0,360), round trips both ways; float YCoCg round trips; saturation/luminosity weights. The sRGB pair is also instantiated for mediump and lowp (except the deliberate lowp vec3<float> approximation); aligned SIMD vector types as a further configuration.',
    rule='ALL 2^24 triples; grids k/16384 + toe k/262144 + both breakpoints +-2ulp (thorough: every consecutive float pair in [0,1]); hue 360k/3600 + sector boundaries +-2ulp.'),
- 'C01': dict(src='drivers/c01.cpp', level='exploration', parts=15, flags=['-O1'], configs=['default', 'clang', 'intr_sse2_defaligned', 'intr_avx2_defaligned'], configs_quick=['default', 'intr_sse2_defaligned'],   # *_defaligned: highp/mediump/lowp name the aligned qualifiers, i.e. the SIMD kernels are compared with the scalar overloads
+ 'C01': dict(src='drivers/c01.cpp', level='exploration', parts=15, flags=['-O1'], configs=['default', 'clang', 'intr_sse2_defaligned', 'intr_avx2_defaligned'], configs_quick=['default', 'intr_sse2_defaligned', 'intr_avx2_defaligned'], parts_by_config_quick={'intr_avx2_defaligned': [7, 8]},   # quick: the SSE4.1/AVX2-only integer kernels (min/max/clamp of int and uint)   # *_defaligned: highp/mediump/lowp name the aligned qualifiers, i.e. the SIMD kernels are compared with the scalar overloads
   
    technique='exhaustive enumeration of the alphabet (component-wise function or operator) x (overload shape) x (vector length 1-4) x (element type) x (qualifier) with complete products of a special-value lattice as inputs, every tuple placed in every lane; oracle = the scalar overload of GLM itself on each component',
    text='Every component-wise function and operator of common/exponential/trigonometric/integer/vector_relational and their ext/gtc/gtx twins is instantiated for every length 1-4, highp/mediump/lowp and every element type it accepts (float, double, int, uint, i8, u8, i16, u16, i64, u64, bool), in every overload shape (vec-vec, vec-scalar, scalar-vec, vec-vec1, vec1-vec, scalar-edge forms, out-parameter forms, compound assignment, ++/--), and evaluated on the complete n-ary product of the special-value lattice; component i of the vector result is compared with the scalar overload on component i (identical bits for selection/rounding/comparison/integer/single-libm-call functions, value equality for arithmetic operators, rounding tolerance for mix/smoothstep/mod/fma, 2^-8 relative for lowp inversesqrt). Matrix abs/mix/equal on all nine shapes. Also run with the aligned qualifiers (GLM_FORCE_DEFAULT_ALIGNED_GENTYPES + intrinsics: the SIMD kernels against the scalar overloads, lowp kernels within 2^-8 on operands in the estimates domain), with compound assignments whose right-hand side aliases the vector or one of its components; the thorough tier enlarges the lattices (all 256 values of 8-bit types) and adds clang and AVX2.',
@@ -393,7 +394,7 @@ PROPS = {
    technique='explicit-state exploration of the float successor graph: every state (all 2^32 float patterns in the thorough tier) has its nextFloat and prevFloat transitions executed on the implementation and checked against integer arithmetic on the IEEE total order',
    text='States are float bit patterns, transitions are nextFloat/prevFloat; each transition is executed on the real code and validated against the reference model (ordered-integer successor), with the invariants prev(next(x))=x, strict monotonicity and distance 1. Thorough visits all 2^32 float states (2^33 transitions); n-step overloads, floatDistance and ULP/epsilon comparisons (scalar, vec1-4, six matrix shapes, quaternion) are explored on lattices that contain every binade edge, both zeros, subnormals and chains crossing zero. Also under GLM_FORCE_CXX98 (the bundled nextafter and the pre-C++11 branches of gtc/ulp) and, thorough, clang.',
    rule='states: F32_ALL (thorough) / F32_EDGE (quick), F64_EDGE; n-step: states x n in {0,1,2,3,7,64} incl. +-0..79 ulp around zero; ULP comparisons: state x distance {0..4,7,8,63,64,65} x {up,down} x maxULPs {0,1,2,4,64}; epsilon comparisons: SPEC^2 x 10 epsilons. Non-trivial = finite state whose targets stay finite.'),
- 'C11': dict(src='drivers/c11.cpp', level='exploration', libs=['-lquadmath'], configs=['default', 'intr_sse2_defaligned', 'intr_avx2_defaligned'], configs_quick=['default', 'intr_sse2_defaligned'],
+ 'C11': dict(src='drivers/c11.cpp', level='exploration', libs=['-lquadmath'], configs=['default', 'intr_sse2_defaligned', 'intr_avx2_defaligned', 'cxx98'], configs_quick=['default', 'intr_sse2_defaligned', 'cxx98'],   # cxx98: the pre-C++11 fallbacks of fmin/fmax/fclamp/round
    technique='exhaustive enumeration of all 2^32 float bit patterns through every unary common function (thorough; structured 6.6e5-point lattice + all ties quick), complete special-value products for n-ary functions, every constant against __float128',
    text='Unary functions (floor ceil trunc round roundEven fract abs sign isnan isinf frexp/ldexp modf iround uround texcoord wraps, bit casts) are decided for every float bit pattern in the thorough tier and on a lattice containing every binade edge, tie and special value in the quick tier; doubles on the analogous lattice; n-ary functions (min max step fmin fmax mod clamp fclamp mix smoothstep fma, 3-/4-operand forms) on the complete product of a ~77-value special lattice; all 31 constants x {float,double} compared bit-for-bit with quad-precision evaluations. The vec4/vec3/vec2 overloads of every unary function are evaluated on (x,-x,x,x) and each lane is held to the same definition; with GLM_FORCE_DEFAULT_ALIGNED_GENTYPES + intrinsics (SSE2; AVX2 in the thorough tier) these lanes are the SIMD kernels, which are thereby decided on every float of the sweep.',
    rule='F32_ALL (2^32 patterns, thorough) / F32_EDGE + F32_TIES (quick); F64_EDGE(+ties beyond 2^31..2^51); F32_SPEC^2, ^3 and a 21-value sublist ^4, same for double. Non-trivial = input inside the function domain (finite for fract/frexp/texcoords, non-negative representable for iround/uround, no signalling NaN for fmin/fmax); distinct by construction.'),
